@@ -56,3 +56,13 @@ def is_std_macro(node):
     (format_args!, assert!, vec!, derives ...)."""
     m = node.get("m")
     return bool(m) and m.startswith("X:")
+
+
+def is_panic_callee(c):
+    """Diverging panic entry points of core/std, matched on the definition path (the printed path
+    of the same function differs between cargo feature sets: core::panicking::panic_fmt vs std::rt::panic_fmt)."""
+    if not c:
+        return False
+    i = c.get("id", "")
+    return i.startswith("core::panicking::") or i.startswith("std::panicking::") or "panicking" in c.get("p", "") \
+        or i in ("core::option::expect_failed", "core::option::unwrap_failed", "core::result::unwrap_failed")
